@@ -565,6 +565,12 @@ def _rounding_vanishes(S, e, c):
     return True
 
 
+class _WrongUnit(Exception):
+    def __init__(self, test, power):
+        super().__init__("guard bound has the wrong power of the box length")
+        self.test, self.power = test, power
+
+
 def r207(ctx):
     """The minimum-image helper is invariant under shifting the raw distance by any integer
     number of box lengths (symbolic: sa/symalg.py)."""
@@ -703,6 +709,12 @@ def r207(ctx):
                 raise S.Undecidable("guard does not test |distance|")
             rp = tr.tr(r)
             cl = S.as_L_power(rp)
+            if cl is not None and cl[1] != 1:
+                raise _WrongUnit(test, cl[1])
+            if cl is None and len(rp) == 1:
+                (m_, c_), = rp.items()
+                if m_ and all(a_ in ("iL", "L") for a_, _ in m_):
+                    raise _WrongUnit(test, sum(pw_ if a_ == "L" else -pw_ for a_, pw_ in m_))
             if cl is None or cl[1] != 1 or cl[0] <= 0:
                 raise S.Undecidable("guard bound is not c*L")
             if aggregate == "any":
@@ -732,6 +744,10 @@ def r207(ctx):
                 far = (e, node, c, kind)
             else:
                 near = (e, node, c)
+    except _WrongUnit as wu:
+        ctx.bad(rid, wu.test, f"the wrap threshold `{short(wu.test, 50)}` compares the distance with a multiple of (box length)^{wu.power}, not of the box length: whether a component is wrapped then depends on the unit of length - for a box edge shorter than one length unit components between L/2 and 1/(2L) stay unwrapped, the minimum image exceeds half a box length and the periodic order parameters change under a shift by a box vector (for edges >= 1 nothing changes, which is why it hides)",
+                construct="wrap threshold not proportional to the box length")
+        return
     except S.Undecidable as exc:
         raise AnalysisError(f"R-20.7: cannot translate pbc_dist_coordinate: {exc}")
     if far is None:
@@ -854,6 +870,7 @@ def run(ctx):
 
 
 VARIANTS = [
+    B("c20-wrap-threshold-on-the-inverse-length", ORDERP, "        if np.abs(distance[i]) > 0.5 * length:", "        if np.abs(distance[i]) > 0.5 * ilength:", "R-20.7", control=True, why="seeded C20_p"),
     B("c20-wrap-behind-a-norm-pre-test", ORDERP, "            box = np.array(system.box[:3])\n            delta = pbc_dist_coordinate(delta, box)\n        lamb = np.sqrt(np.dot(delta, delta))\n        return [lamb]", "            box = np.array(system.box[:3])\n            if np.dot(delta, delta) > np.dot(0.5 * box, 0.5 * box):\n                delta = pbc_dist_coordinate(delta, box)\n        lamb = np.sqrt(np.dot(delta, delta))\n        return [lamb]", "R-20.4", control=True, why="seeded C20_o (inlined)"),
     B("c20-wrap-folds-with-the-truncating-remainder", ORDERP, "    box_ilengths = 1.0 / box_lengths\n    pbcdist = np.zeros(distance.shape)\n    for i, (length, ilength) in enumerate(zip(box_lengths, box_ilengths)):\n        if np.abs(distance[i]) > 0.5 * length:\n            pbcdist[i] = distance[i] - np.rint(distance[i] * ilength) * length\n", "    pbcdist = np.zeros(distance.shape)\n    for i, length in enumerate(box_lengths):\n        half = 0.5 * length\n        if np.abs(distance[i]) > half:\n            pbcdist[i] = np.fmod(distance[i] + half, length) - half\n", "R-20.7", control=True, why="seeded C20_n"),
     K("c20-keep-wrap-folds-with-the-floored-remainder", ORDERP, "    box_ilengths = 1.0 / box_lengths\n    pbcdist = np.zeros(distance.shape)\n    for i, (length, ilength) in enumerate(zip(box_lengths, box_ilengths)):\n        if np.abs(distance[i]) > 0.5 * length:\n            pbcdist[i] = distance[i] - np.rint(distance[i] * ilength) * length\n", "    pbcdist = np.zeros(distance.shape)\n    for i, length in enumerate(box_lengths):\n        half = 0.5 * length\n        if np.abs(distance[i]) > half:\n            pbcdist[i] = np.mod(distance[i] + half, length) - half\n", why="mod(d + L/2, L) - L/2 = d - floor(d/L + 1/2) L: periodic, differs from the rint form only exactly on the half-box boundary"),
